@@ -77,8 +77,8 @@ def _member(v: dict, d: str, name: str, method: bool) -> list:
     selfarg = "self" if method else ""
     if k == "function":
         params = [p for p in [selfarg, "a" if d == "f" else ""] if p]
-        if d in v["opt"]:
-            params += ["*", "opt=None"]
+        if d in ("f", "bm"):      # FSig of DiffTree.tla: (a, *, [opt=None,] k=1) - the added parameter goes in front of k
+            params += ["*"] + (["opt=None"] if d in v["opt"] else []) + ["k=1"]
         ret = " -> int" if d in v.get("ret", ()) else ""
         return [f"def {name}({', '.join(params)}){ret}: ..."]
     if k == "attribute":
